@@ -29,9 +29,24 @@ def main():
     if '--tier' in sys.argv:
         tier = sys.argv[sys.argv.index('--tier') + 1]
         args = [a for a in args if a != tier]
-    if sh(f'git -C {REPO} status --porcelain --untracked-files=no').stdout.strip():
-        print('refusing: /repo has uncommitted changes')
+    # work on a throw-away git worktree of /repo's HEAD so that other checks can run meanwhile
+    global REPO
+    import tempfile
+    wt = tempfile.mkdtemp(prefix='anstyle-seedtest.')
+    os.rmdir(wt)
+    r = sh(f'git -C /repo worktree add --detach {wt} HEAD')
+    if r.returncode != 0:
+        print('cannot create worktree:', r.stderr)
         sys.exit(2)
+    REPO = wt
+    os.environ['VERIF_REPO'] = wt
+    try:
+        run(args, tier)
+    finally:
+        sh(f'git -C /repo worktree remove --force {wt}')
+
+
+def run(args, tier):
     dirs = []
     for base in ('seeded', 'selftest'):
         b = os.path.join(VERIF, base)
@@ -61,6 +76,7 @@ def main():
     print('\n==== summary')
     for r in results:
         print(r)
+    return results
 
 
 if __name__ == '__main__':
